@@ -133,11 +133,7 @@ func (g *Gen) Prim(kind string) []EOp {
 		}
 		return []EOp{{Op: kind, B: g.Bytes(g.size())}}
 	case "string", "compactstring":
-		n := g.size()
-		if r.Intn(40) == 0 {
-			n = 32767
-		}
-		return []EOp{{Op: kind, B: g.Bytes(n)}}
+		return []EOp{{Op: kind, B: g.Bytes(g.size())}}
 	case "nullablestring", "nullablecompactstring":
 		if r.Intn(5) == 0 {
 			return []EOp{{Op: kind, Nil: true}}
@@ -344,7 +340,11 @@ func Expected(ops []EOp) []DVal {
 			if o.Nil || len(o.Strs) == 0 {
 				out = append(out, DVal{T: "strs", Nil: true})
 			} else {
-				out = append(out, DVal{T: "strs", Strs: o.Strs})
+				ss := make([][]byte, len(o.Strs))
+				for i := range o.Strs {
+					ss[i] = []byte(o.Strs[i])
+				}
+				out = append(out, DVal{T: "strs", Strs: ss})
 			}
 		case "compactint32array", "nullablecompactint32array":
 			if o.Nil {
@@ -392,7 +392,7 @@ func DValEq(a, b DVal) bool {
 		}
 	}
 	for i := range a.Strs {
-		if a.Strs[i] != b.Strs[i] {
+		if !bytes.Equal(a.Strs[i], b.Strs[i]) {
 			return false
 		}
 	}
@@ -618,7 +618,11 @@ func CoqDVals(vs []DVal) string {
 		case "ints":
 			it[i] = "VInts " + coqInts64(v.Nil, v.Ints)
 		case "strs":
-			it[i] = "VStrs " + coqStrs(v.Nil, v.Strs)
+			ss := make([]string, len(v.Strs))
+			for j := range v.Strs {
+				ss[j] = string(v.Strs[j])
+			}
+			it[i] = "VStrs " + coqStrs(v.Nil, ss)
 		case "unit":
 			it[i] = "VUnit"
 		default:
@@ -717,3 +721,32 @@ func ExpectEncStatus(ops []EOp) int {
 	}
 	return 0
 }
+
+// SizedWriter shards by accumulated term size as well as by count: Coq's parser overflows its stack on
+// case files of about a megabyte.
+type SizedWriter struct {
+	W        *cf.Writer
+	MaxBytes int
+	MaxCases int
+	n, bytes int
+}
+
+func NewSizedWriter(dir, prefix, caseType, mismatchFn string, maxCases, maxBytes int) *SizedWriter {
+	return &SizedWriter{W: &cf.Writer{Dir: dir, Prefix: prefix, Imports: PrimImports, CaseType: caseType, MismatchFn: mismatchFn, ShardSize: maxCases},
+		MaxBytes: maxBytes, MaxCases: maxCases}
+}
+
+func (s *SizedWriter) Add(term string, side cf.Sidecar) {
+	if s.bytes+len(term) > s.MaxBytes {
+		s.W.ShardSize = s.n + 1
+	}
+	s.W.Add(term, side)
+	s.n++
+	s.bytes += len(term)
+	if s.n >= s.W.ShardSize {
+		s.n, s.bytes = 0, 0
+		s.W.ShardSize = s.MaxCases
+	}
+}
+
+func (s *SizedWriter) Close() { s.W.Close() }
